@@ -722,11 +722,9 @@ class RZILTransformer(Transformer):
         b = items[2]
         op_type = ArithmeticType(items[1])
         name = f"op_{op_type.name}"
-        if op_type != ArithmeticType.MOD:
-            # Modular operations don't need matching types.
-            a = self.promotion_cast(a)
-            b = self.promotion_cast(b)
-            a, b = self.cast_operands(a=a, b=b, immutable_a=False)
+        a = self.promotion_cast(a)
+        b = self.promotion_cast(b)
+        a, b = self.cast_operands(a=a, b=b, immutable_a=False)
         return self.add_op(ArithmeticOp(name, a, b, op_type))
 
     def multiplicative_expr(self, items):
@@ -739,11 +737,11 @@ class RZILTransformer(Transformer):
         b = items[2]
         op_type = ArithmeticType(items[1])
         name = f"op_{op_type.name}"
-        if op_type != ArithmeticType.MOD:
-            # Modular operations don't need matching types.
-            a = self.promotion_cast(a)
-            b = self.promotion_cast(b)
-            a, b = self.cast_operands(a=a, b=b, immutable_a=False)
+        # The usual arithmetic conversions apply to % as to * and /.
+        # MOD needs operands of the same width as well.
+        a = self.promotion_cast(a)
+        b = self.promotion_cast(b)
+        a, b = self.cast_operands(a=a, b=b, immutable_a=False)
         v = ArithmeticOp(name, a, b, op_type)
         return self.add_op(v)
 
